@@ -777,6 +777,7 @@ func TestC20(t *testing.T) {
 		h.calibrate()
 		h.runTable()
 		h.emptyOverrides()
+		h.indexSpellings()
 		n := r.Pick(70, 1500)
 		rng := r.Stream("configs")
 		for i := 0; i < n; i++ {
